@@ -6,6 +6,7 @@ for the model, which has no transcendental functions."""
 import math, os, random, re, shutil, subprocess, sys, tempfile
 from concurrent.futures import ThreadPoolExecutor
 
+os.environ.setdefault("OMP_NUM_THREADS", "1")     # many runs in parallel: one thread each (no oversubscription, no timeouts under load)
 VERIF = os.path.dirname(os.path.dirname(os.path.abspath(__file__)))
 REPO = os.environ.get("VOTCA_REPO", "/repo")
 SCR = REPO + "/csg/share/scripts/inverse"
@@ -72,7 +73,7 @@ def out_rows(rows):
 
 def perl(d, script, args):
     env = dict(os.environ, PERL5LIB=SCR)
-    r = subprocess.run(["perl", os.path.join(SCR, script)] + args, cwd=d, env=env, stdout=subprocess.PIPE, stderr=subprocess.PIPE, timeout=60)
+    r = subprocess.run(["perl", os.path.join(SCR, script)] + args, cwd=d, env=env, stdout=subprocess.PIPE, stderr=subprocess.PIPE, timeout=600)
     return r.returncode
 
 
